@@ -484,7 +484,8 @@ func (c *Conn) doHandshake() error {
 	} else if err == nil {
 		st := fr.Body().(*Settings)
 		if !st.IsAck() {
-			st.CopyTo(&c.serverS)
+			c.serverS.Reset()
+			_ = c.serverS.Read(st.rawSettings)
 
 			// Nothing else is running yet, so these can be set directly.
 			c.streamWindow = int32(c.serverS.MaxWindowSize())
@@ -1189,7 +1190,7 @@ func (c *Conn) writeRequest(ctx *Ctx) error {
 
 	c.bwLck.Lock()
 
-	_, err := fr.WriteTo(c.bw)
+	err := c.writeHeaderBlock(fr, h)
 	if err == nil {
 		err = c.bw.Flush()
 	}
@@ -1223,6 +1224,52 @@ func (c *Conn) writeRequest(ctx *Ctx) error {
 	}
 
 	return nil
+}
+
+// writeHeaderBlock writes the HEADERS frame of a request and, when the header
+// block is larger than the server's SETTINGS_MAX_FRAME_SIZE, the CONTINUATION
+// frames that carry the rest. One oversized HEADERS frame is a FRAME_SIZE_ERROR
+// to a server that holds the client to its limit. The caller holds bwLck, which
+// also keeps anything else from getting in between the frames of the block.
+func (c *Conn) writeHeaderBlock(fr *FrameHeader, h *Headers) error {
+	max := int(atomic.LoadUint32(&c.maxFrameSize))
+	if max <= 0 || max > int(maxFrameSize) {
+		max = int(defaultDataFrameSize)
+	}
+
+	if len(h.rawHeaders) <= max {
+		_, err := fr.WriteTo(c.bw)
+
+		return err
+	}
+
+	rest := append([]byte(nil), h.rawHeaders[max:]...)
+	h.rawHeaders = h.rawHeaders[:max]
+	h.SetEndHeaders(false)
+
+	_, err := fr.WriteTo(c.bw)
+
+	for err == nil && len(rest) > 0 {
+		n := len(rest)
+		if n > max {
+			n = max
+		}
+
+		cont := AcquireFrame(FrameContinuation).(*Continuation)
+		cont.SetHeader(rest[:n])
+		rest = rest[n:]
+		cont.SetEndHeaders(len(rest) == 0)
+
+		cfr := AcquireFrameHeader()
+		cfr.SetStream(fr.Stream())
+		cfr.SetBody(cont)
+
+		_, err = cfr.WriteTo(c.bw)
+
+		ReleaseFrameHeader(cfr)
+	}
+
+	return err
 }
 
 // applyInitialWindow adjusts every stream we are still sending on by the change
@@ -1621,14 +1668,25 @@ func (c *Conn) writePing() error {
 }
 
 func (c *Conn) handleSettings(st *Settings) {
-	st.CopyTo(&c.serverS)
+	// Only the parameters the frame carries change (RFC 7540 6.5.3). Copying
+	// the decoded frame over the stored settings put the defaults back for
+	// everything it did not mention: a server that had set
+	// MAX_CONCURRENT_STREAMS or HEADER_TABLE_SIZE saw them forgotten on its
+	// next SETTINGS frame.
+	_ = c.serverS.Read(st.rawSettings)
 
 	atomic.StoreUint32(&c.maxStreams, c.serverS.MaxConcurrentStreams())
 	atomic.StoreUint32(&c.maxFrameSize, c.serverS.MaxFrameSize())
 
 	// The encoder belongs to the write loop, so the new table size is handed
-	// over rather than applied here.
-	atomic.StoreUint32(&c.encTableSize, st.HeaderTableSize())
+	// over rather than applied here. It never goes above the default this
+	// encoder started with, like in the handshake.
+	tableSize := c.serverS.HeaderTableSize()
+	if tableSize > defaultHeaderTableSize {
+		tableSize = defaultHeaderTableSize
+	}
+
+	atomic.StoreUint32(&c.encTableSize, tableSize)
 
 	// A change to SETTINGS_INITIAL_WINDOW_SIZE applies to every stream that is
 	// already open, as a delta on what it has left.
